@@ -49,7 +49,7 @@ TIERS = {
     # NFULL: all spellings exhaustively; NFULL < n <= NPOL: polarity shapes with seeded spelling; MOD: stride of the largest
     # stratum; NOPT: structures with <= NOPT nodes get CfgSelect!FullOpts, larger ones LightOpts
     "quick": {"NFULL": 2, "NPOL": 4, "DEPTH": 3, "MOD": 4, "NOPT": 2, "LAWN": 2, "LAWP": 4},
-    "thorough": {"NFULL": 3, "NPOL": 5, "DEPTH": 3, "MOD": 4, "NOPT": 3, "LAWN": 3, "LAWP": 5},
+    "thorough": {"NFULL": 3, "NPOL": 5, "DEPTH": 3, "MOD": 4, "NOPT": 2, "LAWN": 3, "LAWP": 5},
 }
 ENV0 = {"SEED": "0", "NFULL": "0", "NPOL": "0", "DEPTH": "0", "MOD": "1", "NOPT": "0",
         "OUT": "/dev/null", "CASES": "/dev/null", "OBS": "/dev/null"}
